@@ -5,7 +5,7 @@ import os
 from hypothesis import strategies as st
 
 from vlib import gen
-from vlib.common import Violation, absent_key, config_kwargs, content_of, digest, new_dir, rm_dir
+from vlib.common import LOWERED_CHOICES, Violation, absent_key, config_kwargs, container_class, content_of, digest, new_dir, rm_dir
 from vlib.interp import RecordingCallback
 from vlib.rawread import RawState, check_consistency
 from vlib.runner import explore
@@ -45,12 +45,13 @@ def strategy():
             'budget': st.integers(0, 2),
             'callback': st.booleans(),
             'do_fsync': st.booleans(),
+            'lowered': st.sampled_from(list(LOWERED_CHOICES)),
         }
     )
 
 
 def run_case(case):  # pylint: disable=too-many-locals,too-many-branches,too-many-statements
-    from disk_objectstore import Container
+    Container = container_class(case.get('lowered'))
 
     src_cfg = dict(case['src_cfg'])
     dst_cfg = dict(case['dst_cfg'])
@@ -181,7 +182,7 @@ def run_case(case):  # pylint: disable=too-many-locals,too-many-branches,too-man
     tsizes = [len(src_model[k]) for k in wanted if digest(dhash, src_model[k]) in transferred]
     both_sides = any(s > budget for s in tsizes) and any(s <= budget for s in tsizes)
     nontrivial = bool(transferred) and (bool(already) or both_sides)
-    labels = [
+    labels = (['lowered-thresholds'] if case.get('lowered') else []) + [
         'same-hash' if case['same_hash'] else 'different-hash',
         f'iterable:{("list", "tuple", "set", "generator")[kind]}',
         f'budget:{("1", "median", "huge")[case["budget"]]}',
